@@ -66,12 +66,40 @@ fn gen_ddesc(shape: &Shape, cfg: &Config, rng: &mut Rng, top: bool, tag: u32) ->
         // equal values written concurrently must all be kept: sometimes draw from a tiny domain
         Shape::Reg => DDesc::RegWrite { v: if cfg.dup_values && rng.chance(1, 2) { 1 + rng.below(2) as u64 } else { 100 + tag as u64 } },
         Shape::Map(inner) => {
-            if rng.below(100) < 68 {
+            if rng.below(100) < if cfg.rm_burst && top { 55 } else { 68 } {
                 DDesc::MapUp { k, inner: Box::new(gen_ddesc(inner, cfg, rng, false, tag)) }
             } else {
-                DDesc::MapRm { k, whole: top && rng.chance(1, 4) }
+                DDesc::MapRm { k, whole: top && rng.chance(if cfg.rm_burst { 3 } else { 1 }, 4) }
             }
         }
+    }
+}
+
+/// second remove of a burst: another key under the whole-map context, another member list under the whole-set
+/// context (or another single member: members added by one add_all share their witness)
+fn burst_followup(first: &Desc, cfg: &Config, rng: &mut Rng) -> Option<Desc> {
+    let d = match first {
+        Desc::D(d) => d,
+        _ => return None,
+    };
+    if !rng.chance(3, 4) {
+        return None;
+    }
+    match d {
+        DDesc::MapRm { k, whole: true } if cfg.nkeys > 1 => {
+            let k2 = (*k + 1 + rng.below(cfg.nkeys as usize - 1) as u8) % cfg.nkeys;
+            Some(Desc::D(DDesc::MapRm { k: k2, whole: true }))
+        }
+        DDesc::SetRm { m } if cfg.nmembers > 1 => {
+            let m2 = (*m + 1 + rng.below(cfg.nmembers as usize - 1) as u8) % cfg.nmembers;
+            Some(Desc::D(DDesc::SetRm { m: m2 }))
+        }
+        DDesc::SetRmAll { ms } if cfg.nmembers > 1 => {
+            let other: Vec<u8> = (0..cfg.nmembers).filter(|m| !ms.contains(m)).collect();
+            let ms2 = if other.is_empty() { vec![rng.below(cfg.nmembers as usize) as u8] } else { other };
+            Some(Desc::D(DDesc::SetRmAll { ms: ms2 }))
+        }
+        _ => None,
     }
 }
 
@@ -536,8 +564,36 @@ pub fn generate<S: Sut>(cfg: &Config, seed: u64, log: bool) -> Generated<S> {
             let desc = gen_desc(&w, &mut g, node, tag);
             let held = cfg.held && w.nodes[node].held.is_some() && g.rng.chance(1, 2);
             let via = g.rng.below(24) as u8;
+            let follow = if cfg.rm_burst { burst_followup(&desc, cfg, &mut g.rng) } else { None };
             if run!(Ev::Edit { node, tag, desc, held, via }) {
                 g.edits += 1;
+                if let Some(desc2) = follow {
+                    // same replica, same read, nothing in between: the two removes carry the same clock
+                    let tag2 = g.next_tag;
+                    g.next_tag += 1;
+                    if run!(Ev::Edit { node, tag: tag2, desc: desc2, held, via }) {
+                        g.edits += 1;
+                        // split delivery: one peer gets the first remove only, another gets both (wherever the
+                        // discipline, partitions and crashes allow it; refused deliveries are simply not applied)
+                        if w.nodes.len() > 1 && g.rng.chance(1, 2) {
+                            let x = (node + 1 + g.rng.below(w.nodes.len() - 1)) % w.nodes.len();
+                            let reach = |w: &World<S>, n: usize| w.up(n) && !w.nodes[n].stalled && w.same_side(node, n);
+                            if reach(&w, x) {
+                                run!(Ev::Deliver { node: x, tag });
+                            }
+                            if w.nodes.len() > 2 {
+                                let mut y = (node + 1 + g.rng.below(w.nodes.len() - 1)) % w.nodes.len();
+                                if y == x {
+                                    y = (0..w.nodes.len()).find(|n| *n != x && *n != node).unwrap();
+                                }
+                                if reach(&w, y) {
+                                    run!(Ev::Deliver { node: y, tag });
+                                    run!(Ev::Deliver { node: y, tag: tag2 });
+                                }
+                            }
+                        }
+                    }
+                }
             }
         } else if roll < cfg.p_edit + cfg.p_fault {
             if let Some(ev) = choose_fault(&w, &mut g) {
